@@ -17,4 +17,15 @@ def _install():
             return bl._str(obj)
         return orig(obj, format_spec)
     core._PATCH_REGISTRATIONS[format] = _format2
+
+    # CrossHair 0.0.110 models str.expandtabs(n) as replace('\t', ' ' * n): column-unaware, so false statements get *confirmed*
+    # (probed). Replace the model by realisation: sound (CPython computes the result for the value of this path); a property that
+    # depends on it can then be refuted but no longer be confirmed by exhausting the path tree.
+    from crosshair.core import realize
+
+    def _expandtabs(self, tabsize=8):
+        return realize(self).expandtabs(realize(tabsize))
+    for cls in set([bl.LazyIntSymbolicStr] + [c for c in vars(bl).values() if isinstance(c, type) and issubclass(c, bl.AnySymbolicStr)]):
+        if 'expandtabs' in vars(cls) or cls is bl.LazyIntSymbolicStr:
+            cls.expandtabs = _expandtabs
 _install()
